@@ -463,6 +463,11 @@ def check(prop, tier, seed, replay=None):
             big = st["edges"] > 400000
             gens = [tours.tours(init, adj, rng, max_len=50, select=select_for(prop),
                                 max_edges=budget if budget else (150000 if big else None))]
+            if prop == "C15" and budget:
+                # automatic channels are where uniqueness is at stake: give them their own budget
+                gens.append(tours.tours(init, adj, rng, max_len=50, max_edges=budget,
+                                        select=lambda s, d, lab: (lab.startswith("Add(") and lab.endswith(",-1)"))
+                                        or (lab.startswith("BulkAdd(") and lab.endswith("<<>>)"))))
             k = 0
             for g in gens:
                 for labs in g:
